@@ -831,21 +831,29 @@ impl<'a> Visitor<'a> {
             || path_buf.extension() == Some(OsStr::new("css"))
         {
             let extension = path_buf.extension().unwrap();
-            try_path!(path_buf.with_extension(format!(".import{}", extension.to_str().unwrap())));
+            try_path!(path_buf.with_extension(format!("import.{}", extension.to_str().unwrap())));
             try_path!(path_buf);
             // todo: consider load paths
             return None;
         }
 
+        // The extension is appended to the whole name: `foo.bar` is looked up as
+        // `foo.bar.scss`, never as `foo.scss`.
+        fn with_appended(path: &Path, suffix: &str) -> PathBuf {
+            let mut name = path.as_os_str().to_os_string();
+            name.push(suffix);
+            PathBuf::from(name)
+        }
+
         macro_rules! try_path_with_extensions {
             ($path:expr) => {
                 let path = $path;
-                try_path!(path.with_extension("import.sass"));
-                try_path!(path.with_extension("import.scss"));
-                try_path!(path.with_extension("import.css"));
-                try_path!(path.with_extension("sass"));
-                try_path!(path.with_extension("scss"));
-                try_path!(path.with_extension("css"));
+                try_path!(with_appended(&path, ".import.sass"));
+                try_path!(with_appended(&path, ".import.scss"));
+                try_path!(with_appended(&path, ".import.css"));
+                try_path!(with_appended(&path, ".sass"));
+                try_path!(with_appended(&path, ".scss"));
+                try_path!(with_appended(&path, ".css"));
             };
         }
 
